@@ -180,3 +180,46 @@ theorem entry_field_roundtrip (b : ByteArray) (r : Row) (start len : Nat) (rest 
   exact pushFields_read_nth _ rest k hk b
 
 end CfbVerif.Phys
+
+namespace CfbVerif.Phys
+open CfbVerif.Raw CfbVerif.Dir
+
+theorem pushCells_eq (cells : List Nat) : ∀ b : ByteArray,
+    pushCells b cells = pushFields b (cells.map (fun c => (4, c))) := by
+  induction cells with
+  | nil => intro b; rfl
+  | cons c cells ih => intro b; simp only [pushCells, List.foldl_cons, List.map_cons, pushFields]; exact ih _
+
+/-- the fields of the rendered header, in order -/
+def headerFields (p : P) (dirChain mfChain : List Nat) : List (Nat × Nat) :=
+  let inHeader := p.difat.take Gen.NUM_DIFAT_ENTRIES_IN_HEADER
+  (Gen.MAGIC_NUMBER.map UInt8.ofNat).map (fun x => (1, x.toNat)) ++
+  [(16, 0), (2, Gen.MINOR_VERSION), (2, if p.v4 then Gen.versionNumberV4 else Gen.versionNumberV3),
+   (2, Gen.BYTE_ORDER_MARK), (2, if p.v4 then Gen.sectorShiftV4 else Gen.sectorShiftV3),
+   (2, Gen.MINI_SECTOR_SHIFT), (6, 0), (4, if p.v4 then dirChain.length else 0), (4, p.difat.length),
+   (4, p.dirStart), (4, 0), (4, Gen.MINI_STREAM_CUTOFF), (4, p.miniFatStart), (4, mfChain.length),
+   (4, p.difatSectorIds.head?.getD END), (4, p.difatSectorIds.length)] ++
+  inHeader.map (fun c => (4, c)) ++
+  (List.replicate (Gen.NUM_DIFAT_ENTRIES_IN_HEADER - inHeader.length) FREE).map (fun c => (4, c)) ++
+  [(p.S - Gen.HEADER_LEN, 0)]
+
+/-- the header renderer *is* that field sequence -/
+theorem renderHeader_eq (p : P) (dirChain mfChain : List Nat) :
+    renderHeader p dirChain mfChain = pushFields ByteArray.empty (headerFields p dirChain mfChain) := by
+  unfold renderHeader headerFields
+  simp only [pushZeros_eq, pushBytes_eq, pushCells_eq]
+  simp only [← pushFields_append, pushFields]
+
+/-- **header codec**: every header field the renderer writes — version, sector shift, the sector
+counts, the three chain starts, every DIFAT entry — is read back by the reader model's primitive
+at its offset -/
+theorem header_field_roundtrip (p : P) (dirChain mfChain : List Nat) (rest : List (Nat × Nat))
+    (k : Nat) (hk : k < (headerFields p dirChain mfChain).length) :
+    leN (pushFields (renderHeader p dirChain mfChain) rest) (widthSum ((headerFields p dirChain mfChain).take k))
+      (headerFields p dirChain mfChain)[k].1 =
+    some ((headerFields p dirChain mfChain)[k].2 % 256 ^ (headerFields p dirChain mfChain)[k].1) := by
+  rw [renderHeader_eq, pushFields_append]
+  have := pushFields_read_nth (headerFields p dirChain mfChain) rest k hk ByteArray.empty
+  simpa using this
+
+end CfbVerif.Phys
